@@ -412,8 +412,15 @@ def fresh_main(inp, outp):
         fmt, opt = item["fmt"], item["opt"]
         if opt == "srcidx" and not loaded:
             Source.clear_registry()
-            Source.load_serialized_sources(data["sources"])
-            loaded = True
+            try:
+                Source.load_serialized_sources(data["sources"])
+                loaded = True
+            except Exception as e:  # noqa: BLE001
+                rec.violation(f"C04|sources-not-loadable|{type(e).__name__}", dict(item["case"], format=fmt, options=opt, fresh_process=True),
+                              f"the separately serialized sources (Source.all_as_dict()) cannot be loaded in a fresh process: {type(e).__name__}: {str(e)[:150]}")
+                loaded = None
+        if opt == "srcidx" and loaded is None:
+            continue
         payload = item["payload"]
         if fmt != "dict":
             raw = base64.b64decode(payload)
